@@ -101,14 +101,14 @@ Definition evt_live (w : world) (e : event) : Prop :=
   match e with
   | EvIn fd => exists x, alookup fd (w_conns w) = Some x /\ sc_out x = false /\
                          k_tosrv (client_of w (sc_client x)) <> []
-  | EvOut fd => exists x, alookup fd (w_conns w) = Some x /\ sc_out x = true
+  | EvOut fd _ => exists x, alookup fd (w_conns w) = Some x /\ sc_out x = true
   | EvListener nf => alookup nf (w_conns w) = None /\ w_backlog w <> []
   | EvHup _ | EvKill => False
   end.
 
 Lemma evt_live_ok w e : evt_live w e -> evt_ok w e.
 Proof.
-  destruct e as [fd|fd|fd|nf|]; cbn; try tauto.
+  destruct e as [fd|fd|fd kk|nf|]; cbn; try tauto.
   - intros (x & H & Ho & _). eauto.
 Qed.
 
@@ -151,25 +151,69 @@ Proof.
       destruct (ConnImpl.read_loop BUF _ _ _ _); intros T; inversion T.
 Qed.
 
-Lemma cc_write_calm x :
+(* one write of a staged buffer b with the kernel accepting n bytes, 1 <= n <= |b| *)
+Lemma staged_write (c1 : conn) (b : bytes) n :
+  (1 <= n <= length b)%nat ->
+  exists c2, (match n with
+              | O => (clear_write_buffer c1, WrErr ConnectionClosed, Some b)
+              | S _ => if (n =? length b)%nat then (set_write c1 (c_rq c1) None, WrOk, Some b)
+                       else if (length b <? n)%nat then (c1, WrPanic 50, Some b)
+                       else (set_write c1 (c_rq c1) (Some (skipn n b)), WrOk, Some b)
+              end) = (c2, WrOk, Some b) /\
+             c_rq c2 = c_rq c1 /\ c_rbuf c2 <> Some [] /\
+             b = firstn n b ++ match c_rbuf c2 with Some r => r | None => [] end /\
+             (n = length b -> c_rbuf c2 = None) /\ parser_same c1 c2.
+Proof.
+  intros Hn. destruct n as [|n']; [lia|].
+  destruct (Nat.eqb (S n') (length b)) eqn:E.
+  - apply Nat.eqb_eq in E. eexists. split; [reflexivity|]. cbn [set_write c_rq c_rbuf].
+    split; [reflexivity|]. split; [discriminate|]. split; [rewrite E, firstn_all, app_nil_r; reflexivity|].
+    split; [reflexivity|]. unfold parser_same. cbn. auto.
+  - apply Nat.eqb_neq in E. assert (L : (length b <? S n')%nat = false) by (apply Nat.ltb_ge; lia). rewrite L.
+    eexists. split; [reflexivity|]. cbn [set_write c_rq c_rbuf].
+    split; [reflexivity|]. split.
+    + remember (skipn (S n') b) as r eqn:Er. intros H. injection H as ->.
+      apply (f_equal (@length _)) in Er. rewrite skipn_length in Er. cbn [length] in Er. lia.
+    + split; [symmetry; apply firstn_skipn|]. split; [lia|]. unfold parser_same. cbn. auto.
+Qed.
+
+Lemma cc_write_calm x k :
   sc_st x = AwaitOut -> pending_write (sc_conn x) = true -> c_rbuf (sc_conn x) <> Some [] ->
-  exists y sent, cc_write x true = inl (y, sent) /\ sent <> [] /\
+  exists y sent, cc_write x true k = inl (y, sent) /\ sent <> [] /\
     unsent (sc_conn x) = sent ++ unsent (sc_conn y) /\
-    sc_st y <> SClosed /\ c_rbuf (sc_conn y) = None /\ sc_client y = sc_client x /\
+    sc_st y <> SClosed /\ c_rbuf (sc_conn y) <> Some [] /\ sc_client y = sc_client x /\
     (sc_st y = AwaitIn \/ sc_st y = AwaitOut).
 Proof.
-  intros S0 Hp Hrb. unfold cc_write. rewrite S0. unfold try_write, unsent, pending_write in *.
+  intros S0 Hp Hrb. unfold cc_write. rewrite S0.
+  set (offered := match c_rbuf (sc_conn x) with Some b => b
+                  | None => match c_rq (sc_conn x) with r :: _ => serialize r | [] => [] end end).
+  assert (Hoff : offered <> []).
+  { unfold offered, pending_write in *. destruct (c_rbuf (sc_conn x)) as [b|]; [congruence|].
+    destruct (c_rq (sc_conn x)) as [|r q]; [discriminate|apply serialize_nonempty]. }
+  set (n := if Nat.eqb k 0 then length offered else Nat.min k (length offered)).
+  assert (Hn : (1 <= n <= length offered)%nat).
+  { unfold n. destruct offered; [congruence|]. cbn [length]. destruct (Nat.eqb k 0) eqn:E; [lia|]. apply Nat.eqb_neq in E. lia. }
+  assert (Hsent : firstn n offered <> []).
+  { destruct offered; [congruence|]. destruct n; [lia|]. discriminate. }
+  unfold try_write.
   destruct (c_rbuf (sc_conn x)) as [b|] eqn:Rb.
-  - destruct b as [|b0 bt]; [congruence|]. cbn [length]. rewrite Nat.eqb_refl.
-    do 2 eexists. split; [reflexivity|]. cbn [sc_conn sc_st sc_client set_write c_rbuf c_rq].
-    split; [discriminate|]. split; [reflexivity|].
-    destruct (match c_rq (sc_conn x) with [] => false | _ => true end); repeat split; auto; discriminate.
-  - destruct (c_rq (sc_conn x)) as [|r q] eqn:Rq; [discriminate|].
-    pose proof (serialize_nonempty r) as Hs. destruct (serialize r) as [|s0 st] eqn:Sr; [congruence|].
-    cbn [length]. rewrite Nat.eqb_refl.
-    do 2 eexists. split; [reflexivity|]. cbn [sc_conn sc_st sc_client set_write c_rbuf c_rq flat_map app].
-    split; [discriminate|]. split; [rewrite Sr; reflexivity|].
-    destruct q; repeat split; auto; discriminate.
+  - (* a buffer is in flight *)
+    change offered with b in *.
+    destruct (staged_write (sc_conn x) b n Hn) as (c2 & W & Hq & Hb2 & Hsplit & _ & _). rewrite W.
+    do 2 eexists. split; [reflexivity|]. cbn [sc_conn sc_st sc_client].
+    split; [exact Hsent|]. split.
+    + unfold unsent. rewrite Rb, Hq. rewrite Hsplit at 1. rewrite <- app_assoc. reflexivity.
+    + split; [destruct (pending_write c2); discriminate|]. split; [exact Hb2|]. split; [reflexivity|].
+      destruct (pending_write c2); auto.
+  - destruct (c_rq (sc_conn x)) as [|r q] eqn:Rq; [exfalso; apply Hoff; reflexivity|].
+    change offered with (serialize r) in *.
+    destruct (staged_write (set_write (sc_conn x) q (Some (serialize r))) (serialize r) n Hn) as (c2 & W & Hq & Hb2 & Hsplit & _ & _).
+    rewrite W.
+    do 2 eexists. split; [reflexivity|]. cbn [sc_conn sc_st sc_client].
+    split; [exact Hsent|]. split.
+    + unfold unsent. rewrite Rb, Rq, Hq. cbn [flat_map set_write c_rq app]. rewrite Hsplit at 1. rewrite <- app_assoc. reflexivity.
+    + split; [destruct (pending_write c2); discriminate|]. split; [exact Hb2|]. split; [reflexivity|].
+      destruct (pending_write c2); auto.
 Qed.
 
 (* ---------- conservation: what a connection writes reaches its own client, in order ---------- *)
@@ -266,13 +310,13 @@ Proof.
   unfold y'. destruct (sc_st y) eqn:Sy; cbn [sc_client sc_st sc_conn]; rewrite ?Sy; eauto 10.
 Qed.
 
-Lemma shape_out w toks fd w' ys :
-  Inv w toks -> Calm w -> evt_live w (EvOut fd) -> handle_event w (EvOut fd) = inl (w', ys) ->
+Lemma shape_out w toks fd kk w' ys :
+  Inv w toks -> Calm w -> evt_live w (EvOut fd kk) -> handle_event w (EvOut fd kk) = inl (w', ys) ->
   exists x y cl sent,
     alookup fd (w_conns w) = Some x /\ alookup (sc_client x) (w_clients w) = Some cl /\
     sent <> [] /\ unsent (sc_conn x) = sent ++ unsent (sc_conn y) /\
     w' = set_client (set_conn w fd y) (sc_client x) (cl_add_rx cl sent) /\
-    sc_client y = sc_client x /\ sc_st y <> SClosed /\ c_rbuf (sc_conn y) = None.
+    sc_client y = sc_client x /\ sc_st y <> SClosed /\ c_rbuf (sc_conn y) <> Some [].
 Proof.
   intros HI HC (x & HL & Ho). cbn [Server.handle_event]. rewrite HL.
   destruct (calm_conns _ HC _ _ HL) as (Hst & Hrb & cl & Hcl).
@@ -284,7 +328,7 @@ Proof.
   destruct (calm_clients _ HC _ _ Hcl) as (K1 & K2 & K3).
   assert (Hcr : k_can_receive cl = true) by (unfold k_can_receive; rewrite K1, K3; reflexivity).
   rewrite Hcr.
-  destruct (cc_write_calm x S0 Hp Hrb) as (y & sent & W & Hs & Hu & Hy & Hyb & Hyc & Hyst).
+  destruct (cc_write_calm x kk S0 Hp Hrb) as (y & sent & W & Hs & Hu & Hy & Hyb & Hyc & Hyst).
   rewrite W. intros H; inversion H; subst w' ys; clear H.
   set (y' := match sc_st y with AwaitIn => mkSC (sc_conn y) (sc_st y) (sc_infl y) (sc_client y) false (sc_gid y) | _ => y end).
   exists x, y', cl, sent. split; [reflexivity|]. split; [exact Hcl|]. split; [exact Hs|].
@@ -361,7 +405,7 @@ Theorem live_event_progress w toks e w' ys :
   Inv w toks -> Calm w -> evt_live w e -> handle_event w e = inl (w', ys) ->
   Calm w' /\ lexlt (meas w') (meas w).
 Proof.
-  intros HI HC Hlive H. destruct e as [fd|fd|fd|nf|]; try (destruct Hlive; fail).
+  intros HI HC Hlive H. destruct e as [fd|fd|fd kk|nf|]; try (destruct Hlive; fail).
   - (* input *)
     destruct (shape_in w toks fd w' ys HI HC Hlive H) as (x & y & cl & n & HL & Hcl & Hn & -> & Hyc & Hys & Hyb & _).
     destruct (calm_conns _ HC _ _ HL) as (_ & Hrb & _).
@@ -370,9 +414,9 @@ Proof.
     + destruct (meas_update w fd x y cl (cl_set_tosrv cl (skipn n (k_tosrv cl))) HL Hcl) as [M1 _].
       left. unfold meas. cbn [fst]. cbn [cl_set_tosrv k_tosrv] in M1. rewrite skipn_length in M1. lia.
   - (* output *)
-    destruct (shape_out w toks fd w' ys HI HC Hlive H) as (x & y & cl & sent & HL & Hcl & Hs & Hu & -> & Hyc & Hys & Hyb).
+    destruct (shape_out w toks fd kk w' ys HI HC Hlive H) as (x & y & cl & sent & HL & Hcl & Hs & Hu & -> & Hyc & Hys & Hyb).
     split.
-    + eapply calm_update; eauto. apply calm_flags_rx. eapply calm_clients; eauto. congruence.
+    + eapply calm_update; eauto. apply calm_flags_rx. eapply calm_clients; eauto.
     + destruct (meas_update w fd x y cl (cl_add_rx cl sent) HL Hcl) as [M1 M2].
       right. unfold meas. cbn [fst snd]. cbn [cl_add_rx k_tosrv] in M1. rewrite Hu, app_length in M2.
       destruct sent; [congruence|]. cbn [length] in M2. lia.
@@ -439,7 +483,7 @@ Proof.
   assert (Conn : forall fd x y cl cl', alookup fd (w_conns w) = Some x -> alookup (sc_client x) (w_clients w) = Some cl ->
             w' = set_client (set_conn w fd y) (sc_client x) cl' -> ev_key e = KConn fd -> evt_live w' e').
   { intros fd x y cl cl' HL Hcl -> Ek. rewrite Ek in Hk.
-    destruct e' as [fd'|fd'|fd'|nf'|]; try (destruct Hlive'; fail); cbn [ev_key] in Hk.
+    destruct e' as [fd'|fd'|fd' kk'|nf'|]; try (destruct Hlive'; fail); cbn [ev_key] in Hk.
     - destruct Hlive' as (x' & HL' & Ho' & Ht'). assert (Hne : fd' <> fd) by congruence.
       exists x'. cbn [evt_live set_client set_conn w_conns]. rewrite alookup_update_other by congruence.
       split; [exact HL'|]. split; [exact Ho'|]. rewrite client_of_update_other; [exact Ht'|].
@@ -448,10 +492,10 @@ Proof.
       exists x'. cbn [set_client set_conn w_conns]. rewrite alookup_update_other by congruence. auto.
     - destruct Hlive' as (Hnf & Hb). cbn [evt_live set_client set_conn w_conns w_backlog]. split; [|exact Hb].
       rewrite alookup_update_other; [exact Hnf|]. intros ->. congruence. }
-  destruct e as [fd|fd|fd|nf|]; try (destruct Hlive; fail).
+  destruct e as [fd|fd|fd kk|nf|]; try (destruct Hlive; fail).
   - destruct (shape_in w toks fd w' ys HI HC Hlive H) as (x & y & cl & n & HL & Hcl & _ & Hw & _).
     eapply Conn; eauto.
-  - destruct (shape_out w toks fd w' ys HI HC Hlive H) as (x & y & cl & sent & HL & Hcl & _ & _ & Hw & _).
+  - destruct (shape_out w toks fd kk w' ys HI HC Hlive H) as (x & y & cl & sent & HL & Hcl & _ & _ & Hw & _).
     eapply Conn; eauto.
   - destruct (shape_listen w nf w' ys HC Hlive H) as (c & rest & cl & Bk & Hcl & Hw).
     destruct Hlive as (Hnf & _).
@@ -462,7 +506,7 @@ Proof.
     assert (Cn : forall fd' x', alookup fd' (w_conns w) = Some x' -> alookup fd' (w_conns w') = Some x').
     { intros fd' x' HL'. destruct Hw as [-> | ->]; cbn [refused_world accepted_world w_conns]; [exact HL'|].
       rewrite alookup_app_end, HL'. reflexivity. }
-    destruct e' as [fd'|fd'|fd'|nf'|]; try (destruct Hlive'; fail); cbn [ev_key] in Hk.
+    destruct e' as [fd'|fd'|fd' kk'|nf'|]; try (destruct Hlive'; fail); cbn [ev_key] in Hk.
     + destruct Hlive' as (x' & HL' & Ho' & Ht'). exists x'. split; [apply Cn; exact HL'|]. split; [exact Ho'|].
       rewrite Cl; [exact Ht'|]. eapply Hcfresh; eauto.
     + destruct Hlive' as (x' & HL' & Ho'). exists x'. split; [apply Cn; exact HL'|exact Ho'].
@@ -679,11 +723,11 @@ Proof.
     - exists x0, []. cbn [set_client set_conn w_conns]. rewrite alookup_update_other by congruence.
       split; [exact HL0|]. split; [reflexivity|]. split; [|constructor]. cbn [flat_map]. rewrite app_nil_r.
       apply wire_other. intros E. apply Hne. eapply (calm_inj _ HC); eauto. }
-  destruct e as [fd|fd|fd|nf|]; try (destruct Hlive; fail).
+  destruct e as [fd|fd|fd kk|nf|]; try (destruct Hlive; fail).
   - destruct (shape_in w toks fd w' ys HI HC Hlive H) as (x & y & cl & n & HL & Hcl & _ & Hw & Hyc & _ & Hyb & Hrx & gen & Hgen & Fgen).
     eapply (Conn fd x y cl _ gen HL Hcl Hw Hyc); [|exact Fgen].
     rewrite Hrx. rewrite (unsent_grow _ _ gen Hgen Hyb). rewrite app_assoc. reflexivity.
-  - destruct (shape_out w toks fd w' ys HI HC Hlive H) as (x & y & cl & sent & HL & Hcl & _ & Hu & Hw & Hyc & _).
+  - destruct (shape_out w toks fd kk w' ys HI HC Hlive H) as (x & y & cl & sent & HL & Hcl & _ & Hu & Hw & Hyc & _).
     eapply (Conn fd x y cl _ [] HL Hcl Hw Hyc); [|constructor].
     cbn [cl_add_rx k_rx flat_map]. rewrite Hu, app_nil_r, app_assoc. reflexivity.
   - destruct (shape_listen w nf w' ys HC Hlive H) as (c & rest & cl & Bk & Hcl & Hw).
@@ -869,3 +913,28 @@ Proof.
   rewrite E in IC. split; [exact IC|]. split; [exact CC|].
   vm_compute in PB. inversion PB; subst. vm_compute in PC. inversion PC; subst. vm_compute. eauto.
 Qed.
+
+(* a write event that accepts a single byte (K3 promises no more): the client receives exactly one byte,
+   the connection keeps its OUT interest and the rest stays queued *)
+Definition wC : world :=
+  match poll 1024 wA with
+  | PYield wB _ => match poll 1024 wB with PYield w _ => w | _ => wA end
+  | _ => wA
+  end.
+Example one_byte_write_example :
+  match respond wC 1 (response_new Http11 NoContent) with
+  | inl w1 =>
+      match handle_event 1024 w1 (EvOut 1 1) with
+      | inl (w2, _) =>
+          length (k_rx (client_of w2 0)) = 1%nat /\
+          match alookup 1%nat (w_conns w2), alookup 1%nat (w_conns w1) with
+          | Some y, Some x => sc_st y = AwaitOut /\ sc_out y = true /\
+                              length (unsent (sc_conn y)) = (length (unsent (sc_conn x)) - 1)%nat /\
+                              (2 <= length (unsent (sc_conn x)))%nat
+          | _, _ => False
+          end
+      | _ => False
+      end
+  | _ => False
+  end.
+Proof. vm_compute. repeat split; lia. Qed.
